@@ -53,7 +53,7 @@ Proof.
   intros fx t g l o W. unfold parent.
   assert (R : raise_if_pid_reused t o = Val tt \/ raise_if_pid_reused t o = Exc NoSuchProcess).
   { unfold raise_if_pid_reused. destruct (lookup t (o_pid o)) as [e|]; [|left; reflexivity].
-    destruct (kp_start e =? o_ident o); [left | right]; reflexivity. }
+    destruct (o_known o && (kp_start e =? o_ident o)); [left | right]; reflexivity. }
   assert (R0 : (if fx_parent_reuse fx then raise_if_pid_reused t o else Val tt) = Val tt \/
                (if fx_parent_reuse fx then raise_if_pid_reused t o else Val tt) = Exc NoSuchProcess).
   { destruct (fx_parent_reuse fx); [exact R | left; reflexivity]. }
@@ -62,8 +62,11 @@ Proof.
   unfold ppid_call. destruct R as [R|R]; rewrite R; cbn [obind]; [|right; reflexivity].
   destruct (lookup t (o_pid o)) as [e|] eqn:L; cbn [obind]; [|right; reflexivity].
   assert (C : (exists c, caller_start fx t o = Val c)).
-  { unfold caller_start, self_ctime. destruct (fx_mono fx); [eexists; reflexivity|].
-    destruct (o_ctime o) as [c|]; [exists c; reflexivity|]. rewrite L. eexists. reflexivity. }
+  { assert (Sc : exists c, self_ctime t o = Val c).
+    { unfold self_ctime. destruct (o_ctime o) as [c|]; [exists c; reflexivity|]. rewrite L. eexists. reflexivity. }
+    unfold caller_start. destruct (fx_mono fx); [|exact Sc].
+    destruct (ident_opt o) as [s|]; [|exact Sc].
+    destruct (fx_ident_some fx || negb (s =? 0)); [eexists; reflexivity | exact Sc]. }
   destruct C as [c C]. rewrite C. cbn [obind].
   pose proof (lookup_In _ _ _ L) as [He _].
   destruct (wf_range t e W He) as [_ [P1 P2]].
@@ -124,7 +127,7 @@ Qed.
 Definition chain3 : table := [ {| kp_pid := 1; kp_ppid := 0; kp_start := 1 |};
                                {| kp_pid := 5; kp_ppid := 1; kp_start := 10 |};
                                {| kp_pid := 8; kp_ppid := 5; kp_start := 20 |} ].
-Definition o8 : pobj := {| o_pid := 8; o_ident := 20; o_ctime := None |}.
+Definition o8 : pobj := {| o_pid := 8; o_ident := 20; o_ctime := None; o_known := true |}.
 
 Theorem parents_vanish_refuted :
   exists t goneb o, wf_table t = true /\ alive_b t o = true /\
